@@ -105,6 +105,7 @@ fn real_main() {
         "c05-families" => props::tools::c05_families(),
         "c16-batch" => props::c16::batch_main(),
         "dbg17" => props::c17::dbg_main(&args[2..]),
+        "dbg19" => props::c19::dbg_main(),
         "dbg11" => props::c11::dbg_main(&args[2..]),
         "dbg03" => props::c03::dbg_main(&args[2..]),
         "dbg15" => props::c15::dbg_main(),
